@@ -205,6 +205,149 @@ func cmdFuncStmts(repo, dir, fn string) {
 	json.NewEncoder(os.Stdout).Encode(out)
 }
 
+// cacheproto: the ordered protocol operations of a type-cache function (sync.Map / WaitGroup /
+// generate / recover), closures bracketed.  Anything else in the body is ignored, so harmless
+// rewrites of unrelated statements do not change the fact.
+func cmdCacheProto(repo, dir, fn string) {
+	fset, files := parseDir(filepath.Join(repo, dir))
+	_ = fset
+	var out []string
+	for _, f := range files {
+		for _, d := range f.Decls {
+			fd, ok := d.(*ast.FuncDecl)
+			if !ok || fd.Name.Name != fn || fd.Body == nil {
+				continue
+			}
+			var stack []ast.Node
+			deferLits := map[*ast.FuncLit]bool{}
+			ast.Inspect(fd.Body, func(n ast.Node) bool {
+				if n == nil {
+					top := stack[len(stack)-1]
+					stack = stack[:len(stack)-1]
+					if _, ok := top.(*ast.FuncLit); ok {
+						out = append(out, "}")
+					}
+					return true
+				}
+				stack = append(stack, n)
+				switch x := n.(type) {
+				case *ast.DeferStmt:
+					if fl, ok := x.Call.Fun.(*ast.FuncLit); ok {
+						deferLits[fl] = true
+					}
+				case *ast.FuncLit:
+					if deferLits[x] {
+						out = append(out, "defer{")
+					} else {
+						out = append(out, "func{")
+					}
+				case *ast.AssignStmt:
+					for _, l := range x.Lhs {
+						if id, ok := l.(*ast.Ident); ok && (id.Name == "iterator" || id.Name == "builderGenerator") && x.Tok == token.ASSIGN {
+							out = append(out, "assignReal")
+						}
+					}
+				case *ast.CallExpr:
+					switch fun := x.Fun.(type) {
+					case *ast.Ident:
+						switch fun.Name {
+						case "recover", "panic":
+							out = append(out, fun.Name)
+						case "iterator", "builderGenerator":
+							out = append(out, "callReal")
+						}
+					case *ast.SelectorExpr:
+						recv := src(fset, fun.X)
+						switch {
+						case recv == "wg":
+							out = append(out, "wg."+fun.Sel.Name)
+						case recv == "_this.iteratorFuncs" || recv == "_this.builderGenerators":
+							out = append(out, "cache."+fun.Sel.Name)
+						case recv == "_this" && (fun.Sel.Name == "getDefaultIteratorForType" || fun.Sel.Name == "defaultBuilderGeneratorForType"):
+							out = append(out, "generate")
+						}
+					}
+				}
+				return true
+			})
+		}
+	}
+	json.NewEncoder(os.Stdout).Encode(out)
+}
+
+// resetfacts: fields of a struct type and the fields a reset method assigns (directly, through a
+// method call on the field, or in a same-receiver helper it calls).
+func cmdResetFacts(repo, dir, typ, fn string) {
+	fset, files := parseDir(filepath.Join(repo, dir))
+	fields := []string{}
+	methods := map[string]*ast.FuncDecl{}
+	for _, f := range files {
+		for _, d := range f.Decls {
+			switch x := d.(type) {
+			case *ast.GenDecl:
+				for _, sp := range x.Specs {
+					ts, ok := sp.(*ast.TypeSpec)
+					if !ok || ts.Name.Name != typ {
+						continue
+					}
+					if st, ok := ts.Type.(*ast.StructType); ok {
+						for _, fl := range st.Fields.List {
+							if len(fl.Names) == 0 {
+								fields = append(fields, src(fset, fl.Type))
+							}
+							for _, nm := range fl.Names {
+								fields = append(fields, nm.Name)
+							}
+						}
+					}
+				}
+			case *ast.FuncDecl:
+				if x.Recv != nil && len(x.Recv.List) == 1 && strings.Contains(src(fset, x.Recv.List[0].Type), typ) {
+					methods[x.Name.Name] = x
+				}
+			}
+		}
+	}
+	assigned := map[string]bool{}
+	seen := map[string]bool{}
+	var visit func(name string)
+	visit = func(name string) {
+		fd := methods[name]
+		if fd == nil || fd.Body == nil || seen[name] {
+			return
+		}
+		seen[name] = true
+		ast.Inspect(fd.Body, func(n ast.Node) bool {
+			switch x := n.(type) {
+			case *ast.AssignStmt:
+				for _, l := range x.Lhs {
+					if se, ok := l.(*ast.SelectorExpr); ok && src(fset, se.X) == "_this" {
+						assigned[se.Sel.Name] = true
+					}
+				}
+			case *ast.CallExpr:
+				if se, ok := x.Fun.(*ast.SelectorExpr); ok {
+					if inner, ok := se.X.(*ast.SelectorExpr); ok && src(fset, inner.X) == "_this" {
+						assigned[inner.Sel.Name] = true // _this.f.Method(...)
+					}
+					if src(fset, se.X) == "_this" {
+						visit(se.Sel.Name)
+					}
+				}
+			}
+			return true
+		})
+	}
+	visit(fn)
+	var as []string
+	for _, f := range fields {
+		if assigned[f] {
+			as = append(as, f)
+		}
+	}
+	json.NewEncoder(os.Stdout).Encode(map[string][]string{"fields": fields, "assigned": as})
+}
+
 func main() {
 	if len(os.Args) < 3 {
 		fmt.Fprintln(os.Stderr, "usage: extract <cmd> <repo>")
@@ -217,6 +360,10 @@ func main() {
 		cmdSwitchCases(os.Args[2], os.Args[3], os.Args[4])
 	case "funcstmts":
 		cmdFuncStmts(os.Args[2], os.Args[3], os.Args[4])
+	case "cacheproto":
+		cmdCacheProto(os.Args[2], os.Args[3], os.Args[4])
+	case "resetfacts":
+		cmdResetFacts(os.Args[2], os.Args[3], os.Args[4], os.Args[5])
 	case "bitranges":
 		cmdBitRanges(os.Args[2], os.Args[3], os.Args[4])
 	default:
